@@ -6,7 +6,7 @@ from typing import Dict, List
 
 from .. import sym
 from ..sym import Rat, C
-from ..values import Num, Const, Tup, Term, Obj, P, Val, Ref, arr_param, scalar_param, term_as_num, veq, fresh_serial
+from ..values import Num, Const, Tup, Term, Obj, P, Val, Ref, arr_param, scalar_param, term_as_num, veq, fresh_serial, walk_vals
 from ..model import AnalysisError
 from ..rfa_model import Strategy, strategy, SpecEnv, RFA, ADAPT, strip_state
 from ..symeval import Evaluator, assume
@@ -399,6 +399,12 @@ def check_adaptive_windows(ctx):
                 if isinstance(x_, Num) and x_.is_const() and x_.const() == 0 and isinstance(y_, Num) and y_.length is None:
                     if y_.r == r:
                         return True
+                    ra = list(r.atoms())
+                    if len(ra) == 1 and sym.ATOMS.head(ra[0]) == 'Abs' and (r / Rat.atom(ra[0])).is_const():
+                        inner = sym.ATOMS.args(ra[0])[0]
+                        q_ = y_.r / inner
+                        if q_.is_const() and q_.const_value() != 0:
+                            return True         # the jump without its absolute value: zero exactly when the jump is
                     # the same jump times a factor that does not involve the averages (a width, a constant): zero exactly when the jump is
                     try:
                         ratio = y_.r / r
@@ -433,8 +439,23 @@ def check_adaptive_windows(ctx):
             open_ = [(e, ts) for e, ts in truth if any(t is None for t in ts) and not any(t is False for t in ts)]
             if open_:
                 e = open_[0][0]
-                ctx.unknown('C06.6', f"{name} window, case {c}", f"append at {e.loc()}: cannot settle the branch condition {[str(g)[:80] for g in e.guard]}",
-                            e.loc(), fi.qualname, f"{side}:{c}")
+                foreign = []
+
+                def leaves(q_):
+                    if isinstance(q_, P) and q_.op in ('not', 'and', 'or'):
+                        for a_ in q_.args:
+                            leaves(a_)
+                    elif isinstance(q_, P) and leaf(q_) is None:
+                        foreign.append(q_)
+                for g in e.guard:
+                    leaves(g)
+                on_y = [q_ for q_ in foreign if q_.op == '==' and any(isinstance(t_, Ref) and t_.label == 'Yext' for t_ in walk_vals(q_))]
+                if foreign and len(on_y) == len(foreign):
+                    ctx.fail('C06.6', f"{name} window, case {c}: the tie cases are decided by whether the two adjacent jumps |y[k+1]-y[k]|, |y[k]-y[k-1]| are zero",
+                             f"append at {e.loc()} is decided by a zero test of another quantity: {[str(q_)[:120] for q_ in on_y[:2]]}", e.loc(), fi.qualname, f"{side}:{c}")
+                else:
+                    ctx.unknown('C06.6', f"{name} window, case {c}", f"append at {e.loc()}: cannot settle the branch condition {[str(g)[:80] for g in e.guard]}",
+                                e.loc(), fi.qualname, f"{side}:{c}")
                 continue
             live = [e for e, ts in truth if all(t is True for t in ts)]
             if len(live) != 1:
